@@ -172,6 +172,17 @@ Section Lower.
     cbn [lit_matches]. apply list_eqb_N_refl.
   Qed.
 
+  (* `_exists_:<title>`: the query side always runs case-sensitively on this field, so the term is the
+     title itself, byte for byte *)
+  Lemma exists_term : forall title,
+    has_rune WildcardRune title = false -> valid_utf8 title = true ->
+    qkw to_lower true title = [TText title] /\ query_finds [qkw to_lower true title] [title] = true.
+  Proof.
+    intros title Hw Hv. rewrite qkw_nowild by assumption. unfold qlower.
+    rewrite valid_utf8_sanitize by assumption. split; [reflexivity|].
+    unfold query_finds. cbn. rewrite list_eqb_N_refl. reflexivity.
+  Qed.
+
   Lemma firstn_all_le : forall (v : list N) n, (length v <= n)%nat -> firstn n v = v.
   Proof. intros. apply firstn_all2. assumption. Qed.
 
